@@ -130,6 +130,8 @@ def check(rep, tier, seed):
     ctx = Ctx("agent")
     rep.extra["mir_dump"] = {"cache_hit": ctx.dump.cache_hit, "tree_hash": ctx.dump.hash, "seconds": round(ctx.dump.seconds, 1)}
     check_handler_enforces(rep, ctx)
+    import p_c01
+    p_c01.check_empty_response(rep, ctx, "C03")
     check_authorize(rep, ctx)
 
 
